@@ -37,8 +37,12 @@ fn read_entry<R: Read>(f: &mut R, bufsize: usize, zero: bool) -> (Result<Vec<u8>
     let mut calls = 0u32;
     let res = if bufsize == 0 {
         if zero {
-            if let Err(e) = f.read(&mut []) {
-                return (Err(format!("empty read: {e}")), false);
+            loop {
+                match f.read(&mut []) {
+                    Err(e) if e.kind() == std::io::ErrorKind::Interrupted => continue,
+                    Err(e) => return (Err(format!("empty read: {e}")), false),
+                    Ok(_) => break,
+                }
             }
         }
         f.read_to_end(&mut out).map(|_| ()).map_err(|e| e.to_string())
@@ -49,6 +53,7 @@ fn read_entry<R: Read>(f: &mut R, bufsize: usize, zero: bool) -> (Result<Vec<u8>
                 match f.read(&mut []) {
                     Ok(0) => {}
                     Ok(n) => break Err(format!("empty read returned {n}")),
+                    Err(e) if e.kind() == std::io::ErrorKind::Interrupted => continue,
                     Err(e) => break Err(format!("empty read: {e}")),
                 }
             }
@@ -56,6 +61,8 @@ fn read_entry<R: Read>(f: &mut R, bufsize: usize, zero: bool) -> (Result<Vec<u8>
             match f.read(&mut buf) {
                 Ok(0) => break Ok(()),
                 Ok(n) => out.extend_from_slice(&buf[..n]),
+                // the retryable non-failure of the Read contract: retry, as std's read_to_end / read_exact do
+                Err(e) if e.kind() == std::io::ErrorKind::Interrupted => continue,
                 Err(e) => break Err(e.to_string()),
             }
             if out.len() > 1 << 24 {
@@ -205,6 +212,8 @@ fn bufname(b: usize) -> String {
 }
 
 enum Frag {
+    /// underlying reads limited to `chunk` bytes (0 = unlimited) and I/O call `at` returns ErrorKind::Interrupted once
+    Interrupt { chunk: usize, at: u64 },
     Chunk(usize),
     Cuts(Vec<u64>),
     BufReader(usize),
@@ -212,6 +221,7 @@ enum Frag {
 impl Frag {
     fn describe(&self) -> String {
         match self {
+            Frag::Interrupt { chunk, at } => format!("underlying reads limited to {chunk} bytes (0 = unlimited), I/O call {at} returns ErrorKind::Interrupted once (callers retry)"),
             Frag::Chunk(c) => format!("every underlying read limited to {c} bytes"),
             Frag::Cuts(v) => format!("underlying reads cut at absolute positions {v:?}"),
             Frag::BufReader(c) => format!("std BufReader with capacity {c}"),
@@ -219,6 +229,7 @@ impl Frag {
     }
     fn class(&self) -> &'static str {
         match self {
+            Frag::Interrupt { .. } => "interrupted-read",
             Frag::Chunk(_) => "uniform-chunk",
             Frag::Cuts(v) if v.len() == 1 => "one-cut",
             Frag::Cuts(_) => "two-cuts",
@@ -232,6 +243,12 @@ fn run_frag(s: &Scn, stream: bool, frag: &Frag, bufsize: usize, zero: bool) -> R
     p.borrow_mut().record_kinds = false;
     match frag {
         Frag::Chunk(c) => p.borrow_mut().chunk = Some(*c),
+        Frag::Interrupt { chunk, at } => {
+            if *chunk > 0 {
+                p.borrow_mut().chunk = Some(*chunk);
+            }
+            p.borrow_mut().devs.insert(*at, Dev::Interrupted);
+        }
         Frag::Cuts(v) => p.borrow_mut().cuts = v.clone(),
         Frag::BufReader(_) => {}
     }
@@ -249,7 +266,7 @@ fn compare(s: &Scn, stream: bool, frag: &Frag, bufsize: usize, zero: bool, base:
     let route = if stream { "stream" } else { "seekable" };
     let got = run_frag(s, stream, frag, bufsize, zero);
     let case = || json!({"scenario": s.label, "route": route, "fragmentation": frag.describe(), "caller_buffer": bufname(bufsize), "empty_reads": zero, "big": BIG.load(std::sync::atomic::Ordering::Relaxed),
-        "frag": match frag { Frag::Chunk(c) => json!({"chunk": c}), Frag::Cuts(v) => json!({"cuts": v}), Frag::BufReader(c) => json!({"bufreader": c}) }, "bufsize": bufsize});
+        "frag": match frag { Frag::Interrupt { chunk, at } => json!({"interrupt": [chunk, at]}), Frag::Chunk(c) => json!({"chunk": c}), Frag::Cuts(v) => json!({"cuts": v}), Frag::BufReader(c) => json!({"bufreader": c}) }, "bufsize": bufsize});
     match got {
         Err(p) => {
             st.class("panic");
@@ -272,7 +289,7 @@ fn compare(s: &Scn, stream: bool, frag: &Frag, bufsize: usize, zero: bool, base:
                 let mut w = String::new();
                 for (i, (x, y)) in o.entries.iter().zip(&base.entries).enumerate() {
                     if x.meta != y.meta {
-                        w = format!("entry {i}: metadata {:?} instead of {:?}", x.meta, y.meta);
+                        w = format!("entry {i}: metadata {:?} instead of {:?}{}", x.meta, y.meta, x.content.as_ref().err().map(|e| format!(" ({e})")).unwrap_or_default());
                     } else if x.content != y.content {
                         w = match &x.content {
                             Err(e) => format!("entry {i}: read fails with '{e}'"),
@@ -363,6 +380,8 @@ fn replay(case: &Value, st: &mut Stats, seed: u64) {
             }
             if let (Some(k), Some(j)) = (case["call"].as_u64(), case["accept"].as_u64()) {
                 p.borrow_mut().devs.insert(k, Dev::Short(j as usize));
+            } else if let (Some(k), Some("interrupted")) = (case["call"].as_u64(), case["accept"].as_str()) {
+                p.borrow_mut().devs.insert(k, Dev::Interrupted);
             }
             let got = run_writer(calls, &src, p);
             if got != base {
@@ -375,7 +394,9 @@ fn replay(case: &Value, st: &mut Stats, seed: u64) {
     let scns = scenarios(seed, big);
     let Some(s) = scns.iter().find(|s| s.label == case["scenario"].as_str().unwrap_or("")) else { return };
     let stream = case["route"] == "stream";
-    let frag = if let Some(c) = case["frag"]["chunk"].as_u64() {
+    let frag = if let Some(a) = case["frag"]["interrupt"].as_array() {
+        Frag::Interrupt { chunk: a[0].as_u64().unwrap_or(0) as usize, at: a[1].as_u64().unwrap_or(0) }
+    } else if let Some(c) = case["frag"]["chunk"].as_u64() {
         Frag::Chunk(c as usize)
     } else if let Some(c) = case["frag"]["bufreader"].as_u64() {
         Frag::BufReader(c as usize)
@@ -405,7 +426,7 @@ pub fn run(args: &Args) -> i32 {
         "E-DEV over fragmentation schedules, differential against the 0-deviation run (which is itself required to return the written content). Reader: 7 archives \
          (stored+deflated, bzip2+zstd, ZipCrypto x2, AE-1, AE-2, prefixed+ZIP64), entries of 40 and {big} bytes; seekable route for all, streaming route for the two plain ones. \
          Deviations: every uniform chunk limit in 1..=17 and {{4095,4096,4097}} and std BufReader capacities {{1,7,64}} x caller buffers {{1,2,3,7,64,4096,read_to_end}} x empty reads {{no,yes}}; \
-         ONE cut at EVERY byte position of every archive x caller buffers {{1,7,read_to_end}}; all PAIRS of cut positions (bound 2) on a 40+60-byte archive. After EOF three more reads must return 0. \
+         a retryable ErrorKind::Interrupted at every read call (plain and with 5-byte underlying reads; callers retry as std does), and at every write call on the writer side; ONE cut at EVERY byte position of every archive x caller buffers {{1,7,read_to_end}}; all PAIRS of cut positions (bound 2) on a 40+60-byte archive. After EOF three more reads must return 0. \
          Writer: 12 programs; sink accepting at most c bytes per write for the same c set; one short write at every write-call index with 1, n/2, n-1 bytes accepted: sink bytes must be identical; \
          caller splitting a 700-byte content at every position and in uniform pieces 1..17: archive must decode to the same entries. distinct_nontrivial = distinct (scenario, route, schedule, caller pattern) tuples (counted; never repeated)."
     );
@@ -467,6 +488,33 @@ pub fn run(args: &Args) -> i32 {
             }
         }
     }
+    // a retryable Interrupted at every read call of the failure-free run (plain and with 5-byte underlying reads)
+    for (si, s) in scns.iter().enumerate() {
+        for stream in [false, true] {
+            if stream && !s.stream {
+                continue;
+            }
+            for chunk in [0usize, 5] {
+                for cb in [7usize, 0] {
+                    // the call numbering depends on the caller pattern: number the calls of exactly this configuration
+                    let p: PlanRef = plan();
+                    if chunk > 0 {
+                        p.borrow_mut().chunk = Some(chunk);
+                    }
+                    let inst = Inst::new(s.bytes.clone(), p.clone());
+                    let _ = if stream { run_stream(InstRead { inner: inst }, cb, false) } else { run_seekable(inst, s.pw.as_deref(), cb, false) };
+                    let kinds = p.borrow().kinds.clone();
+                    // with 5-byte reads the big entry alone takes thousands of calls: every call in quick up to 600, then every 7th
+                    for (k, kind) in kinds.iter().enumerate() {
+                        if *kind != Kind::Read || (!thorough && k > 600 && k % 7 != 0) {
+                            continue;
+                        }
+                        items.push(Item { si, stream, frag: Frag::Interrupt { chunk, at: k as u64 }, cbufs: vec![cb], zeros: vec![false] });
+                    }
+                }
+            }
+        }
+    }
     // pairs of cuts on a small archive
     let small = {
         let mut r = crate::util::Rng(seed ^ 0x99);
@@ -525,6 +573,7 @@ pub fn run(args: &Args) -> i32 {
     // writer side
     let progs = writer_programs(seed);
     let src = crate::props::c02::sources(seed);
+    // (program, sink chunk, one short write (call, accepted)); accepted == usize::MAX means: that call returns Interrupted once
     let mut witems: Vec<(usize, Option<usize>, Option<(u64, usize)>)> = vec![];
     let mut wbase = vec![];
     for (pi, (label, calls, pw)) in progs.iter().enumerate() {
@@ -543,6 +592,9 @@ pub fn run(args: &Args) -> i32 {
         }
         let pl = p.borrow();
         for (k, (kind, n)) in pl.kinds.iter().zip(&pl.sizes).enumerate() {
+            if *kind == Kind::Write {
+                witems.push((pi, None, Some((k as u64, usize::MAX))));
+            }
             if *kind == Kind::Write && *n >= 2 {
                 let mut js = vec![1, n / 2, n - 1];
                 js.dedup();
@@ -568,20 +620,24 @@ pub fn run(args: &Args) -> i32 {
             p.borrow_mut().chunk = Some(c);
         }
         if let Some((k, j)) = short {
-            p.borrow_mut().devs.insert(k, Dev::Short(j));
+            p.borrow_mut().devs.insert(k, if j == usize::MAX { Dev::Interrupted } else { Dev::Short(j) });
         }
         let got = run_writer(calls, src_ref, p);
-        let case = json!({"writer": label, "chunk": chunk, "call": short.map(|s| s.0), "accept": short.map(|s| s.1)});
+        let case = json!({"writer": label, "chunk": chunk, "call": short.map(|s| s.0), "accept": short.map(|s| if s.1 == usize::MAX { json!("interrupted") } else { json!(s.1) })});
         if let Some((c, r)) = calls.iter().zip(&got.0).find(|(_, r)| r.is_panic()) {
             st.viol(format!("writer/panic/{}", c.opname()), format!("{label}: {} panicked under short writes: {}", c.opname(), r.show()), case, (1 << 50) + t);
             return;
         }
-        if got != wbase_ref[pi] {
+        if matches!(short, Some((_, usize::MAX))) && got.0.iter().any(|r| r.is_err()) {
+            // compressor back ends hand an Interrupted from the sink to the caller as an error: reported, not absorbed
+            st.class("writer/interrupted-write-surfaced-as-error");
+        } else if got != wbase_ref[pi] {
             st.class("WRITER-OUTPUT-DIFFERS");
             let what = if got.0 != wbase_ref[pi].0 { "call results differ" } else { "sink bytes differ" };
             st.viol(
                 format!("writer/short-writes-change-output/{label}/{}", if chunk.is_some() { "chunked-sink" } else { "one-short-write" }),
-                format!("{label}: with {} the {what} from the run without short writes", match (chunk, short) { (Some(c), _) => format!("a sink accepting at most {c} bytes per write"), (_, Some((k, j))) => format!("I/O call {k} accepting only {j} bytes"), _ => String::new() }),
+                format!("{label}: with {} the {what} from the run without short writes", match (chunk, short) { (Some(c), _) => format!("a sink accepting at most {c} bytes per write"), (_, Some((k, j))) if j == usize::MAX => format!("I/O call {k} (a write) returning ErrorKind::Interrupted once"),
+                    (_, Some((k, j))) => format!("I/O call {k} accepting only {j} bytes"), _ => String::new() }),
                 case,
                 (1 << 50) + t,
             );
